@@ -67,7 +67,16 @@ def spec_hash():
 def record_family(binhash, name, args, seed, binary="explore"):
     """run one scenario family of the explorer; traces are cached per harness binary (the binary
     contains the engine under test, so a cache hit means byte-identical code and arguments)."""
-    key = hashlib.sha256(("%s|%s|%s|%s|%s" % (binhash, binary, name, " ".join(args), seed)).encode()).hexdigest()[:16]
+    extra = ""
+    if args and args[0] == "shapes":
+        # the graphs of this family come from a file: its content belongs to the cache key
+        path = os.path.join(VERIF, "harness", "shapes.txt")
+        for a in args:
+            if a.startswith("file="):
+                path = a[5:]
+        with open(path, "rb") as f:
+            extra = hashlib.sha256(f.read()).hexdigest()[:12]
+    key = hashlib.sha256(("%s|%s|%s|%s|%s|%s" % (binhash, binary, name, " ".join(args), seed, extra)).encode()).hexdigest()[:16]
     d = os.path.join(SCRATCH, "traces", key)
     meta = os.path.join(d, "meta.json")
     if os.path.exists(meta):
